@@ -45,6 +45,7 @@ fn lifecycle(ctx: &mut Ctx) {
     // for the whole run, or dropped at once), and a SUB socket may have a subscription
     let mon_mode = if ctx.idx >= 432 { ctx.plan(3) } else { 0 };
     let subscribed = ctx.idx >= 432 && kind == Kind::Sub && ctx.plan_bool();
+    let crowd = if ctx.idx >= 432 && prefix == 5 && ctx.plan(6) == 0 { 120 + ctx.plan(60) as usize } else { 0 };
     let backlog = ctx.idx >= 432 && matches!(kind, Kind::Pub | Kind::Xpub) && matches!(prefix, 1 | 3) && ctx.plan_bool();
     rt::task::spawn_local("app", async move {
         let mut sock = AnySock::new(kind, None);
@@ -164,6 +165,19 @@ fn lifecycle(ctx: &mut Ctx) {
             let _ = rt::future::or_idle(sock.recv()).await;
             rt::count("probe_receiver_parked_before_teardown");
         }
+        if prefix == 5 && crowd > 0 {
+            // a crowd of connections stuck in their handshakes at the moment of teardown
+            for n in 0..crowd {
+                if let Ok(mut peer) = RawPeer::connect(&ep) {
+                    if n % 3 == 1 {
+                        let _ = peer.send(&crate::refcodec::greeting_default()[..10]).await;
+                    }
+                    o2.borrow_mut().conns.push((peer.conn.clone(), 1, "handshake_pending"));
+                    peers.push(peer);
+                }
+            }
+            rt::count("probe_teardown_with_a_crowd_of_pending_handshakes");
+        }
         if prefix == 5 {
             // a peer that connects and stays silent (or sends half a greeting)
             if let Ok(mut peer) = RawPeer::connect(&ep) {
@@ -257,7 +271,7 @@ pub fn def() -> PropDef {
     PropDef {
         id: "C17",
         level: "fault_enumeration",
-        rule: "the case index enumerates the grid socket type (9) x transport {tcp v4, tcp v6, tcp localhost, ipc} x history prefix {bound only, bound + accepted peers, connected out, mid-traffic, receiver has parked once, handshake pending} x {close().await, drop} = 432 cells, first undisturbed, then repeatedly under drawn transport/schedule (an injected unlink failure for some ipc/close cells; a second bound endpoint on another transport, with its own peer, in one case in three; a monitor installed and kept or dropped; a subscription on SUB; PUB/XPUB torn down while it holds unflushed data for subscribers that have stopped reading); judged in the simulated network and file namespaces: listeners gone and fresh connects refused (at close() return, resp. at quiescence after drop), socket file removed, every peer connection closed by the socket, no library-spawned task alive; distinct = distinct (cell, plan, schedule, transport)",
+        rule: "the case index enumerates the grid socket type (9) x transport {tcp v4, tcp v6, tcp localhost, ipc} x history prefix {bound only, bound + accepted peers, connected out, mid-traffic, receiver has parked once, handshake pending} x {close().await, drop} = 432 cells, first undisturbed, then repeatedly under drawn transport/schedule (an injected unlink failure for some ipc/close cells; a second bound endpoint on another transport, with its own peer, in one case in three; a monitor installed and kept or dropped; a subscription on SUB; a crowd of 120..180 connections stuck in their handshakes at teardown; PUB/XPUB torn down while it holds unflushed data for subscribers that have stopped reading); judged in the simulated network and file namespaces: listeners gone and fresh connects refused (at close() return, resp. at quiescence after drop), socket file removed, every peer connection closed by the socket, no library-spawned task alive; distinct = distinct (cell, plan, schedule, transport)",
         assumptions: &["TCP ports and IPC files are those of the simulator's namespaces, reached through the real transport/tcp.rs, transport/ipc.rs, lib.rs and task_handle.rs code; the kernel and the tokio-gated glue lines are not exercised", "'shortly afterwards' for drop = by the time the simulation is quiescent"],
         strata: vec![Stratum { name: "lifecycle", quick: 432 * 80, thorough: (432 * 1200) * 20, exhaustive: (true, true), run: lifecycle, what: "432-cell grid of socket type x transport x history x close/drop" }],
     }
